@@ -341,7 +341,16 @@ func runHist(payload string) string {
 		return strings.Join(outs, " ; ")
 	}
 	for _, op := range strings.Split(parts[1], " ; ") {
-		ret := applyOp(s, op)
+		var ret string
+		if strings.HasPrefix(op, "marshal ") {
+			// through the address of the handle, as a caller does: Marshal may replace what the handle points to
+			ret = guard(func() string {
+				in, _ := parseV(strings.Fields(op)[1:])
+				return "M" + errTok((&s).Marshal(Build(in).([]any)...))
+			})
+		} else {
+			ret = applyOp(s, op)
+		}
 		outs = append(outs, ret+" "+obsStack(s))
 	}
 	return strings.Join(outs, " ; ")
@@ -423,7 +432,12 @@ func genCapx(r *rand.Rand, id string, tier string) string {
 				ops = append(ops, "pop")
 			}
 		case 11:
-			ops = append(ops, "rev")
+			if r.Intn(2) == 0 {
+				// Marshal-into: one new element if there is room, and the capacity stays what it was
+				ops = append(ops, "marshal "+[]string{"A [ s414e44 i1 i2 ]", "A [ s4c495354 s78 ]", "A [ s434f4e444954494f4e s6b Oc1 i1 ]", "A [ s6a756e6b i5 ]", "A [ ]"}[r.Intn(5)])
+			} else {
+				ops = append(ops, "rev")
+			}
 		}
 	}
 	return st.String() + " | " + strings.Join(ops, " ; ")
